@@ -172,8 +172,9 @@ def shard(cname, dt, delayk, mode, tol_k, ob_kind, B, T, via="ctor", shape=(2,))
     tally = Tally()
     delay = delayk * dt
     tol = tol_k * dt
-    cur_ob = {"cfg": 7.0, "none": None, "zero": 0.0}[ob_kind]
-    spk_ob = {"cfg": True, "none": None, "zero": False}[ob_kind]
+    # "mixed": the two out-of-bounds values disagree in truthiness (current 7.0, spikes False), so neither can stand in for the other
+    cur_ob = {"cfg": 7.0, "none": None, "zero": 0.0, "mixed": 7.0, "mixed2": 0.0}[ob_kind]
+    spk_ob = {"cfg": True, "none": None, "zero": False, "mixed": False, "mixed2": True}[ob_kind]
     cfg = {"class": cname, "dt": dt, "delay": delay, "interp_mode": mode, "tol": tol, "overbound": ob_kind, "B": B, "configured_via": via, "synapse_shape": list(shape)}
     grid = selector_grid(dt, delay, tol)
     elems = list(itertools.product((False, True), repeat=2))
@@ -317,6 +318,9 @@ def run(rep):
                                     # multi-dimensional / singleton synapse shapes (trailing-D selectors broadcast over all of them)
                                     for shp in ((1, 2), (2, 1), (2, 1, 1)):
                                         jobs.append((shard, (cname, dt, delayk, mode, tol_k, ob, B, T, "ctor", shp)))
+                                if B == 1 and ob == "cfg" and tol_k == 0.0 and mode == "previous" and delayk in (0.0, 2.0):
+                                    jobs.append((shard, (cname, dt, delayk, mode, tol_k, "mixed", B, T)))
+                                    jobs.append((shard, (cname, dt, delayk, mode, tol_k, "mixed2", B, T)))
                                 if B == 1 and ob == "cfg" and tol_k == 0.0 and mode == "previous" and delayk in (1.0, 2.5):
                                     jobs.append((shard, (cname, dt, delayk, mode, tol_k, ob, B, T, "delay-setter")))
                                     jobs.append((shard, (cname, dt, delayk, mode, tol_k, ob, B, T, "dt-setter")))
@@ -347,8 +351,8 @@ def run(rep):
 
 
 def replay(case):
-    cur_ob = {"cfg": 7.0, "none": None, "zero": 0.0}[case["overbound"]]
-    spk_ob = {"cfg": True, "none": None, "zero": False}[case["overbound"]]
+    cur_ob = {"cfg": 7.0, "none": None, "zero": 0.0, "mixed": 7.0, "mixed2": 0.0}[case["overbound"]]
+    spk_ob = {"cfg": True, "none": None, "zero": False, "mixed": False, "mixed2": True}[case["overbound"]]
     B = case["B"]
     syn = build(case["class"], case["dt"], case["delay"], case["interp_mode"], case["tol"], cur_ob, spk_ob, B, case.get("inplace", False))
     elems = list(itertools.product((False, True), repeat=2))
